@@ -104,13 +104,17 @@ var whitelist = []FuncSpec{
 	{"pkg/provider/serviceprovider", "ServiceProvider", "ValidateRedirectSignature"},
 	{"pkg/provider/xml", "", "DecodeAuthNRequest"},
 	{"pkg/provider/xml", "", "DecodeLogoutRequest"},
+	{"pkg/provider", "IdentityProviderConfig", "getMetadata"},
+	{"pkg/provider", "IdentityProvider", "GetEntityID"},
+	{"pkg/provider", "IdentityProvider", "GetMetadata"},
 }
 
 // standaloneOnly: translated for theorems of their own; callers keep consulting the (legacy) oracle of the same name, so
 // that the definitions and proofs about the callers stay as they are (the link is a hypothesis of the theorems that
 // combine them: the oracle's answers are the generated function's)
 var standaloneOnly = map[string]bool{"pkg/provider/serviceprovider.ServiceProvider.ValidateRedirectSignature": true,
-	"pkg/provider/xml.DecodeAuthNRequest": true, "pkg/provider/xml.DecodeLogoutRequest": true}
+	"pkg/provider/xml.DecodeAuthNRequest": true, "pkg/provider/xml.DecodeLogoutRequest": true,
+	"pkg/provider.IdentityProviderConfig.getMetadata": true, "pkg/provider.IdentityProvider.GetEntityID": true, "pkg/provider.IdentityProvider.GetMetadata": true}
 
 // extraFields are struct fields the hand-written handler models read although no translated function does.
 var extraFields = map[string][]string{
@@ -943,6 +947,9 @@ func (c *tctx) stmts(list []ast.Stmt, ind string) string {
 		}
 		return guardWrap(tag.g, ind, c.seqText(ind+"  ("+strings.TrimLeft(build(0), " ")+")", rest, ind))
 	case *ast.RangeStmt:
+		if out, ok := c.blankingLoop(s); ok {
+			return out + "\n" + c.stmts(rest, ind)
+		}
 		xs := c.expr(s.X)
 		elemTy := ""
 		var elemT types.Type
@@ -1198,6 +1205,59 @@ func firstLine(s string) string {
 	return s
 }
 
+// blankingLoop recognises
+//
+//	for _, p := range xs { for i := range p.F { p.F[i] = e } }
+//
+// over a local slice `xs` of pointers, with a constant `e`: every element of every `F` is overwritten through the
+// pointers the slice holds.  In the value model (a pointer is the value it points to, slices hold values) this is a
+// map over `xs`; nothing else aliases the pointees here because `xs` is a local the function has just built.
+func (c *tctx) blankingLoop(s *ast.RangeStmt) (string, bool) {
+	if len(s.Body.List) != 1 {
+		return "", false
+	}
+	inner, ok := s.Body.List[0].(*ast.RangeStmt)
+	if !ok || inner.Value != nil || len(inner.Body.List) != 1 {
+		return "", false
+	}
+	xsId, ok := s.X.(*ast.Ident)
+	if !ok {
+		return "", false
+	}
+	root, isLocal := c.locals[c.info.Uses[xsId]]
+	sl, isSlice := c.info.TypeOf(s.X).Underlying().(*types.Slice)
+	if !isLocal || !isSlice || !isPointer(sl.Elem()) {
+		return "", false
+	}
+	pv, ok := s.Value.(*ast.Ident)
+	iv, ok2 := inner.Key.(*ast.Ident)
+	if !ok || !ok2 {
+		return "", false
+	}
+	fsel, ok := inner.X.(*ast.SelectorExpr)
+	if !ok || types.ExprString(fsel.X) != pv.Name {
+		return "", false
+	}
+	as, ok := inner.Body.List[0].(*ast.AssignStmt)
+	if !ok || as.Tok.String() != "=" || len(as.Lhs) != 1 || len(as.Rhs) != 1 {
+		return "", false
+	}
+	if types.ExprString(as.Lhs[0]) != pv.Name+"."+fsel.Sel.Name+"["+iv.Name+"]" {
+		return "", false
+	}
+	cv, isConst := c.constVal(as.Rhs[0])
+	if !isConst {
+		return "", false
+	}
+	ns := namedStruct(sl.Elem())
+	if ns == nil {
+		return "", false
+	}
+	c.w.useField(ns, fsel.Sel.Name)
+	et := c.w.leanType(sl.Elem().(*types.Pointer).Elem())
+	return fmt.Sprintf("  let s := { s with %s := List.map (fun (p_ : Option %s) => Option.map (fun (v_ : %s) => { v_ with %s := List.map (fun _ => %s) v_.%s }) p_) s.%s };", root, et, et, fsel.Sel.Name, cv, fsel.Sel.Name, root), true
+}
+
 var boundPtrs = map[types.Object]bool{}
 
 func (c *tctx) boundPtr(o types.Object) { boundPtrs[o] = true }
@@ -1418,7 +1478,7 @@ var storageEffects = map[string]bool{"CreateAuthRequest": true}
 var outParamMethods = map[string]int{"SetUserinfoWithUserID": 1, "SetUserinfoWithLoginName": 0}
 
 // funcOracles: untranslated package-level functions that may be called as oracles (typed by their Go signature)
-var funcOracles = map[string]bool{"createRedirectSignature": true, "createPostSignature": true, "Marshal": true, "DeflateAndBase64": true, "DecodeLogoutRequest": true, "DecodeAuthNRequest": true, "DecodeAttributeQuery": true, "GetSigner": true, "Create": true, "ValidateRedirect": true}
+var funcOracles = map[string]bool{"createRedirectSignature": true, "createPostSignature": true, "Marshal": true, "DeflateAndBase64": true, "DecodeLogoutRequest": true, "DecodeAuthNRequest": true, "DecodeAttributeQuery": true, "GetSigner": true, "Create": true, "ValidateRedirect": true, "IssuerFromContext": true}
 
 // scanInout finds the pointer parameters of f that the body assigns through, directly or by passing them to a
 // translated callee that does (callees are translated first: whitelist order).
@@ -2481,8 +2541,8 @@ func (c *tctx) calleeFn(e ast.Expr) *fn {
 		return nil
 	}
 	if f, ok := c.w.byObj[obj]; ok {
-		if standaloneOnly[f.spec.key()] {
-			return nil
+		if standaloneOnly[f.spec.key()] && !standaloneOnly[c.f.spec.key()] {
+			return nil // standalone functions call each other translated; everybody else keeps the oracle
 		}
 		if f.failed != "" {
 			panic("callee " + f.spec.key() + " untranslated: " + f.failed)
